@@ -11,10 +11,16 @@ Judge (from the property text, on what the REAL scheduler did):
   completed in the run; for a run of kind `complete` that shut down by itself (graph without suicide triggers)
   the two sets are equal; a `complete` run must end in automatic shutdown (unless the operation budget ran out). The
   premise "every finished task is complete" is read off the run: no finished task is retained in the final pool.
+* a completed output comes with the outputs it implies (succeeded / failed ⇒ started ⇒ submitted), whatever the text
+  of the failure report (`failed/<SIGNAL>`, `aborted/<reason>`) and whichever messages were lost;
+* the prerequisites of every instance of the extracted graph are those of the recurrences the instance is valid on
+  (`pre_spec`: from `TaskDef.dependencies` and `Sequence.is_valid`, not from the TaskProxy).
+The model side canonicalises the failure texts (`SchedPF.canonMsg`).
 The hypothesis `Graph.wf` of the theorems is checked on every real graph.
 -/
 import CylcModel.SchedObsC01
 import CylcModel.SchedHypC01
+import CylcModel.SchedPF
 open Lean CylcModel.Drv CylcModel.Sched CylcModel.SchedObs
 
 namespace CylcModel.DrvC01
@@ -46,8 +52,25 @@ def judgeLaunch (g : Graph) (i : Nat) (prev : Json) (seen : List Atom) (l : Int 
           | ab :: _ => some s!"{tag}: prerequisite {atomStr ab.1} is satisfied but that output was never completed upstream"
           | [] => none
 
+/-- a completed job output comes with the outputs it implies: a job that succeeded or failed has started, a job
+that started was submitted (whatever the text of the failure report and whichever messages were lost) -/
+def impliedMissing (outs : List String) : Option (String × String) :=
+  if (outs.contains "succeeded" || outs.contains "failed") && !outs.contains "started" then
+    some (if outs.contains "succeeded" then "succeeded" else "failed", "started")
+  else if outs.contains "started" && !outs.contains "submitted" then some ("started", "submitted")
+  else none
+
+def judgeImplied (i : Nat) (ob : Json) : Option String :=
+  let recs : List (Int × String × List String) :=
+    ((poolObs ob).map fun x => (x.p, x.n, x.out)) ++ ((removedOf ob).map fun r => (r.1, r.2.1, r.2.2.2))
+  recs.findSome? fun r =>
+    (impliedMissing r.2.2).map fun m =>
+      s!"obs {i}: output {m.1} of {r.1}/{r.2.1} is complete but the output {m.2} it implies is not (its graph children cannot run)"
+
 def judgeStep (g : Graph) (i : Nat) (prev ob : Json) (seen : List Atom) : Option String :=
-  (launchesOf ob).findSome? (judgeLaunch g i prev seen)
+  match (launchesOf ob).findSome? (judgeLaunch g i prev seen) with
+  | some w => some w
+  | none => judgeImplied i ob
 
 /-! closure -/
 
@@ -148,21 +171,54 @@ def judgeClosure (i : Json) (g : Graph) (kind : String) (nOps : Nat) (obs : List
       | some k => some s!"instance {k.1}/{k.2} is in the spawn-on-demand closure but was never submitted before the automatic shutdown"
       | none => plCheck
 
-def judge (i : Json) (c : Case) (kind : String) (o : Json) : Option String :=
+/-- the prerequisites of every instance of the extracted graph against the recurrences the instance is valid on
+(`pre_spec`, computed by the harness from `TaskDef.dependencies` and `Sequence.is_valid`): the same atom lists, up to
+the implicit previous-instance prerequisite of a sequential task -/
+def judgePreSpec (i : Json) (g : Graph) : Option String :=
+  let atomKey (a : Atom) : String := s!"{a.pt}/{a.task}:{a.out}"
+  g.tasks.findSome? fun t =>
+    t.insts.findSome? fun pd =>
+      let dj := ((((jField? i "graph").bind fun gj => jField? gj "tasks").bind fun tj => jField? tj t.name).bind
+        fun tj => jField? tj "inst").bind fun ins => jField? ins (toString pd.1)
+      match dj.bind fun d => jArrField? d "pre_spec" with
+      | none => none
+      | some specJ =>
+        let spec : List (List String) := specJ.map fun l => (sortBy (· < ·) (((jArr? l).getD []).filterMap fun a =>
+          match jArr? a with
+          | some [p, n, m] => do pure s!"{← jInt? p}/{← jStr? n}:{← jStr? m}"
+          | _ => none))
+        let have_ : List (List String) := pd.2.pre.map fun pre => sortBy (· < ·) (pre.atoms.map fun ab => atomKey ab.1)
+        let isSeq (l : List String) : Bool := jsonSequential i t.name && l.length == 1 &&
+          pd.2.pre.any fun pre => match pre.atoms with
+            | [(a, _)] => [atomKey a] == l && a.task == t.name && a.out == "succeeded" && decide (a.pt < pd.1)
+            | _ => false
+        match have_.find? (fun l => !spec.contains l && !isSeq l) with
+        | some l => some s!"instance {pd.1}/{t.name} has the prerequisite {l}, which no recurrence the instance is valid on gives it"
+        | none => match spec.find? (fun l => !have_.contains l) with
+          | some l => some s!"instance {pd.1}/{t.name} lacks the prerequisite {l} of a recurrence it is valid on"
+          | none => none
+
+def judge (i : Json) (c : CaseX) (kind : String) (o : Json) : Option String :=
   let g := c.graph
   if !g.wf then some "hypothesis-violated: a task of the extracted graph lacks a standard output (Graph.wf)"
   else
+    match (obsList o).head?.bind (judgeImplied 0) with
+    | some w => some w
+    | none =>
     match scanObs g (obsList o) (judgeStep g) with
     | some w => some w
-    | none => judgeClosure i g kind c.ops.length (obsList o)
+    | none =>
+      match judgePreSpec i g with
+      | some w => some w
+      | none => judgeClosure i g kind c.ops.length (obsList o)
 
 def handle (i o : Json) : Except String Reply := do
   if let some r := crashReply? i then return r
-  let c ← parseCase i
+  let c ← parseCaseX i
   let kind := (jStrField? i "kind").getD "any"
   match judge i c kind o with
-  | some w => return { model := modelObs c, holds := false, why := w }
-  | none => return { model := modelObs c, holds := true }
+  | some w => return { model := modelObsX c, holds := false, why := w }
+  | none => return { model := modelObsX c, holds := true }
 
 end CylcModel.DrvC01
 
